@@ -123,6 +123,8 @@ class StmtMixin:
             self.fn_proto[name] = 'void %s(%s);' % (name, ps)
             self.fn_text[name] = '/* throw %s */\nvoid %s(%s)\n{\n%s\n}' % (base, name, ps, '\n'.join(body))
             self.fn_info[name] = {'cname': name, 'pretty': 'throw ' + base, 'kind': 'throw', 'exc_type': tid}
+        if self.cur_calls is not None:
+            self.cur_calls.add(name)
         self.emit_pre(cx, '%s(%s);' % (name, ', '.join(args)))
         for l in self.exc_edge_throw(cx):
             self.emit_pre(cx, l)
@@ -274,6 +276,16 @@ class StmtMixin:
         if init is None:
             out.append(ind + '%s;' % self.decl_of(ti, nm))
             return
+        if any(x.startswith('[') for x in ti['suf']):
+            il = init
+            while il.get('kind') in ('ExprWithCleanups', 'ConstantExpr') and il.get('kind') != 'InitListExpr':
+                il = il['inner'][0]
+            if il.get('kind') != 'InitListExpr':
+                self.err(d, 'array initialiser')
+            items = [self.rv(x, cx) for x in il.get('inner', [])]
+            self.flush(cx, out, ind)
+            out.append(ind + '%s = { %s };' % (self.decl_of(ti, nm), ', '.join(items)))
+            return
         v = self.rv(init, cx)
         self.flush(cx, out, ind)
         out.append(ind + '%s = %s;' % (self.decl_of(ti, nm), v))
@@ -380,6 +392,25 @@ class StmtMixin:
             self.pop_scope(cx)
             out.append(ind + '}')
 
+    def loop_body(self, body, cx, out, ind):
+        """loop body followed by the ghost-code marker of the current loop"""
+        o = cx.loop_ord
+        out.append(ind + '{')
+        self.push_scope(cx)
+        if body.get('kind') == 'CompoundStmt':
+            for c in body.get('inner', []):
+                self.stmt(c, cx, out, ind + '  ')
+            sc = cx.scopes[-1]
+            if not self.ends_with_jump(body):
+                for cexpr, rid in reversed(sc['dtors']):
+                    for l in self.dtor_call(cexpr, rid, cx):
+                        out.append(ind + '  ' + l)
+        else:
+            self.stmt(body, cx, out, ind + '  ')
+        self.pop_scope(cx)
+        out.append(ind + '  /*@LOOPEND %s %d@*/' % (cx.cname, o))
+        out.append(ind + '}')
+
     def loop_marker(self, cx):
         cx.loop_ord += 1
         cx.loops.append(cx.loop_ord)
@@ -395,7 +426,7 @@ class StmtMixin:
         if not pre:
             out.append(ind + 'while (%s)' % v)
             out.append(ind + self.loop_marker(cx))
-            self.stmt_block(body, cx, out, ind)
+            self.loop_body(body, cx, out, ind)
         else:
             out.append(ind + 'while (1)')
             out.append(ind + self.loop_marker(cx))
@@ -428,7 +459,7 @@ class StmtMixin:
         if not pre and not ipre:
             out.append(i2 + 'for (; %s; %s)' % (v, iv if iv else ''))
             out.append(i2 + self.loop_marker(cx))
-            self.stmt_block(body, cx, out, i2)
+            self.loop_body(body, cx, out, i2)
         else:
             lbl = cx.newlbl('cont')
             cx.scopes[-1]['cont_label'] = lbl
@@ -534,6 +565,16 @@ class StmtMixin:
             return
         cx = Ctx(d, cname)
         cx.loops = []
+        saved_calls = self.cur_calls
+        self.cur_calls = set()
+        try:
+            self._lower_function(d, cname, cx)
+        finally:
+            if cname in self.fn_info:
+                self.fn_info[cname]['calls'] = sorted(self.cur_calls - {cname})
+            self.cur_calls = saved_calls
+
+    def _lower_function(self, d, cname, cx):
         cx.ret_is_ref = False
         kind = d.get('kind')
         rec = self.ast.enclosing_record(d) if kind != 'FunctionDecl' else None
